@@ -11,7 +11,7 @@ from jsonpath.selectors import IndexSelector, ListSelector, SliceSelector
 from jsonpath.token import Token
 
 from vlib import oracle, spines
-from vlib.hs import Leaf, P, kf, ok, same_nodes, why
+from vlib.hs import Leaf, P, kf, ok, same_nodes, small, why
 from vlib.stubs import Arr, PySlice
 
 ENV = JSONPathEnvironment()
@@ -110,6 +110,7 @@ def wrong_kind(leaf: Leaf, i: int, start: Optional[int], stop: Optional[int], st
     pre: stop is None or -2 <= stop <= 3
     pre: step is None or -2 <= step <= 2
     pre: 0 <= which <= 5
+    pre: small(leaf)
     post: _
     """
     doc = {"a": leaf, "b": [leaf]}
@@ -158,6 +159,7 @@ def wrong_container(which: int, i: int, v0: Leaf, v1: Leaf) -> bool:
 def generic(l0: IS, l1: IS, l2: IS, l3: int, l4: int, l5: int, n: int, b0: bool, b1: bool, b2: bool) -> bool:
     """
     pre: 0 <= n <= MAXN
+    pre: small(l0, l1, l2)
     post: _
     """
     doc = spines.build(SPINE, [l0, l1, l2, l3, l4, l5], n, [b0, b1, b2])
